@@ -40,8 +40,8 @@ ASSUMPTIONS = [
     "an empty chunk result may be '' or b'' (codecs.iterencode/iterdecode skip falsy chunks)",
 ]
 MIN_EVENTS = {
-    'quick': {'oracle.reuse': 3500, 'oracle.fallback': 40, 'oracle.detect.final': 25000, 'oracle.detect.monotone': 25000, 'oracle.roundtrip': 500, 'oracle.chunking': 20000, 'partitions.exhaustive-inputs': 30},
-    'thorough': {'oracle.reuse': 70000, 'oracle.fallback': 40, 'oracle.detect.final': 25000, 'oracle.detect.monotone': 25000, 'oracle.roundtrip': 500, 'oracle.chunking': 400000, 'partitions.exhaustive-inputs': 100},
+    'quick': {'oracle.reuse': 3500, 'oracle.reuse-after-refusal': 600, 'oracle.fallback': 40, 'oracle.detect.final': 25000, 'oracle.detect.monotone': 25000, 'oracle.roundtrip': 500, 'oracle.chunking': 20000, 'partitions.exhaustive-inputs': 30},
+    'thorough': {'oracle.reuse': 70000, 'oracle.reuse-after-refusal': 12000, 'oracle.fallback': 40, 'oracle.detect.final': 25000, 'oracle.detect.monotone': 25000, 'oracle.roundtrip': 500, 'oracle.chunking': 400000, 'partitions.exhaustive-inputs': 100},
 }
 
 CLASSES = [0x00, 0x40, 0x63, 0x68, 0x61, 0xEF, 0xBB, 0xBF, 0xFE, 0xFF, 0x41, 0x22, 0x80]
@@ -533,6 +533,49 @@ def check_reuse(ctx, t1, t2, given, rng, cuts_in=None, abandon_in=None):
     ctx.seen(['R', given, core.h8(t1), core.h8(t2), abandon])
 
 
+REFUSED_BYTES = [b'@charset "no-such-encoding";a{}', b'@charset "rot13";a{}', b'@charset "css";a{}', b'\xef\xbb\xbf@charset "hex";a', b'@charset "utf-8";\xff\xfe{}', b'\xff\xfe@\x00\xd8',
+                 b'@charset "ascii";\xe4', b'@charset "";a{}']
+REFUSED_TEXTS = ['@charset "no-such-encoding";a{}', '@charset "rot13";a{}', '@charset "css";a{}', '@charset "ascii";\xe4{}', '@charset "iso-8859-1";\u0416', '@charset "";a{}']
+
+
+def check_reuse_refused(ctx, first, t2, given, rng, cuts_in=None, final_in=None):
+    """round 8: the first document is *refused* (unknown or non-text encoding named, undecodable bytes, unencodable text); after reset()
+    the object handles the next document like a new one"""
+    try:
+        exp_enc = oneshot_encode(t2, given)
+        exp_dec = oneshot_decode(exp_enc, given)
+    except Exception:
+        ctx.count('reuse.skipped')
+        return
+    isbytes = isinstance(first, bytes)
+    c1 = cuts_in[0] if cuts_in else rand_cuts(len(first), rng)
+    c2 = cuts_in[1] if cuts_in else rand_cuts(len(exp_enc) if isbytes else len(t2), rng)
+    final = final_in if final_in is not None else rng.random() < 0.7
+    case = {'kind': 'reuse-refused', 'first': first.decode('latin-1') if isbytes else first, 'bytes': isbytes, 't2': t2, 'given': given, 'cuts': [list(c1), list(c2)], 'final': final}
+    ctx.count('evaluations')
+    api = 'incdec' if isbytes else 'incenc'
+    try:
+        obj = (codecs.getincrementaldecoder if isbytes else codecs.getincrementalencoder)('css')(encoding=given)
+        refused = False
+        ch1 = cut(first, c1)
+        try:
+            for i, ch in enumerate(ch1):
+                (obj.decode if isbytes else obj.encode)(ch, final and i == len(ch1) - 1)
+        except (LookupError, ValueError, TypeError):  # (UnicodeError is a ValueError; "css" naming itself is refused with ValueError)
+            refused = True
+        ctx.count('oracle.reuse-after-refusal' if refused else 'reuse.first-not-refused')
+        obj.reset()
+        second = exp_enc if isbytes else t2
+        ch2 = cut(second, c2)
+        got = join_any([(obj.decode if isbytes else obj.encode)(ch, i == len(ch2) - 1) for i, ch in enumerate(ch2)], '' if isbytes else b'')
+        exp = exp_dec if isbytes else exp_enc
+        if got != exp:
+            ctx.violation('reuse.' + api, dict(case, api=api), {'got': got, 'expected': exp, 'first_refused': refused})
+    except Exception as e:
+        ctx.violation('reuse.' + api, dict(case, api=api), {'tb': core.short_tb(e)}, site=core.raise_site(e))
+    ctx.seen(['RR', given, core.h8(case['first']), core.h8(t2), isbytes, final])
+
+
 REUSE_TEXTS = ['a{b:c}', '@charset "utf-8";a{}', '@charset "iso-8859-1";é{}', '@charset "koi8-r";a{content:"Ж"}', '@charset "utf-16";x{}', '', '@charset "utf-8-sig";é', 'é{content:"Жя"}',
                '@charset "x";a', '@charset "', '@charset "ascii";a{}', '@charset "cp1252";€{}']  # fmt: skip
 
@@ -545,6 +588,8 @@ def reuse_stream(ctx, count):
         t1, t2 = rng.choice(REUSE_TEXTS), rng.choice(REUSE_TEXTS)
         given = rng.choice([None, None] + ENCODINGS)
         check_reuse(ctx, t1, t2, given, rng)
+        if i % 2 == 0:
+            check_reuse_refused(ctx, rng.choice(REFUSED_BYTES + REFUSED_TEXTS), t2, given, rng)
 
 
 FALLBACK_DOCS = [b'a{content:"\xe4\xf6"}', b'@charset "koi8-r";a{content:"\xe4"}', b'\xef\xbb\xbfa{content:"\xc3\xa4"}', b'a{}', b'', b'@charset "iso-8859-5"; \xe4', b'/* \xb5 */a{x:y}',
@@ -658,6 +703,13 @@ def replay(ctx, case):
 
         codec(cssutils)
         check_reuse(ctx, case['t1'], case['t2'], case['given'], random.Random(0), cuts_in=[tuple(x) for x in case['cuts']], abandon_in=case['abandon'])
+        return
+    if case.get('kind') == 'reuse-refused':
+        import random
+
+        codec(cssutils)
+        first = case['first'].encode('latin-1') if case['bytes'] else case['first']
+        check_reuse_refused(ctx, first, case['t2'], case['given'], random.Random(0), cuts_in=[tuple(x) for x in case['cuts']], final_in=case['final'])
         return
     c = codec(cssutils)
     kind = case.get('kind')
